@@ -103,6 +103,19 @@ def sortedTable (b : Bytes) (t : Ref) : Bool :=
     decide (rfBegin b t i ≤ rfEnd b t i) && decide (rfEnd b t i ≤ rfBegin b t (i + 1)) &&
       decide (rfBegin b t (i + 1) ≤ rfEnd b t (i + 1))
 
+/-- textbook binary search on the half-open window `[lo, hi)`: the reference `binary_search_by` is measured
+against (`cmp i` = how element `i` compares to the target) -/
+def bsearchRef (cmp : Nat → Ordering) (lo hi : Nat) : SearchRes :=
+  if lo < hi then
+    let mid := lo + (hi - lo) / 2
+    match cmp mid with
+    | .eq => .found mid
+    | .lt => bsearchRef cmp (mid + 1) hi
+    | .gt => bsearchRef cmp lo mid
+  else .notFound lo
+termination_by hi - lo
+decreasing_by all_goals omega
+
 /-- record `i` covers `pc`: `[BeginAddress, EndAddress)` -/
 def Covers (b : Bytes) (t : Ref) (i pc : Nat) : Prop := rfBegin b t i ≤ pc ∧ pc < rfEnd b t i
 
@@ -121,8 +134,14 @@ def CertWellFormed (fileSize va size : Nat) : Prop :=
 
 instance (n va size : Nat) : Decidable (CertWellFormed n va size) := by unfold CertWellFormed; infer_instance
 
+def certLength (b : Bytes) (va : Nat) : Nat := le32 b va
 def certType (b : Bytes) (va : Nat) : Nat := le16 b (va + 6)
-def certBytes (va size : Nat) : Ref := ⟨va + 8, size - 8, 1⟩
+/-- the stored certificate: the `dwLength − 8` bytes after the 8-byte header -/
+def certBytes (b : Bytes) (va : Nat) : Ref := ⟨va + 8, certLength b va - 8, 1⟩
+/-- a directory holding exactly one certificate whose length is the directory size (the generated ones) -/
+def SingleCert (b : Bytes) (va size : Nat) : Prop := certLength b va = size
+
+instance (b : Bytes) (va size : Nat) : Decidable (SingleCert b va size) := by unfold SingleCert; infer_instance
 
 /-! ### C01 for the debug decoders: every reference inside an interpreted entry is valid -/
 
